@@ -11,7 +11,7 @@ import ast, itertools
 from z3 import *
 from pyvc.core import *
 
-PROPS = ['C08']
+PROPS = ['C08']          # the 'never escapes' obligation also carries C01
 REPLAY = {'driver': 'parse_params'}
 REL = 'taskiq/receiver/params_parser.py'
 TRUSTED = [
@@ -119,7 +119,8 @@ def generate(src):
         reach(s, f"parse_params/reach@return#{exits['return']}")
     def on_exc(s, exc):
         exits['raise'] += 1
-        oblige(s, "parse_params/raises: a failed conversion (ValueError/RuntimeError) never escapes  [C08]", BoolVal(False), replay=RP)
+        oblige(s, "parse_params/raises: a failed conversion (ValueError/RuntimeError) never escapes (run_task calls parse_params outside its try block: an escaping exception means the task function is never invoked)  [C08/C01]", BoolVal(False), replay=RP)
     ex.run(fdef, st, on_ret, on_exc)
+    oblige(State(), "parse_params/total: every path returns normally - no conversion failure (ValueError/RuntimeError from the conversion) escapes, so run_task goes on to invoke the task function  [C08/C01]", BoolVal(exits['raise'] == 0), replay=RP)
     src.note_paths('::parse_params', sum(exits.values()))
     return {'exits': dict(exits)}
